@@ -1,6 +1,6 @@
 LEVEL = "proof"
 MANIFEST = {
-    "engine": "symrun",
+    "engine": "symrun+frames",
     "category": "proof",
     "text": "Postconditions on the real functions of tools/geometric.py and the CovModel isometrize/anisometrize methods, discharged for ALL angle vectors and anisotropy ratios (symbolic reals) and every dimension 1-4 (the property's own finite quantifier) by symbolic execution of the real code + z3 nlsat over Ackermannised trig terms with Pythagoras facts.",
     "level_note": "floats as mathematical reals (T1); numpy object-dtype execution follows float64 shape/broadcast rules (T2); sin/cos abstracted to reals constrained by sin^2+cos^2=1 and parity/congruence facts only; z3/cvc5 soundness.",
@@ -18,6 +18,9 @@ def run(rep, tier, seed, only=None):
     rep.trust("T4 trig facts: sin^2+cos^2=1, parity, congruence (ground instances only)")
     rep.trust("z3 4.x/5.x nlsat, cvc5 1.x")
     contract.run_all(rep, "C12", tier, seed, only)
+    if not only:
+        from contracts.c12_reads import add_read_obligations
+        add_read_obligations(rep)
 
 
 def replay(path):
